@@ -8,6 +8,9 @@ seeds = []
 for d in sorted(glob.glob(os.path.join(ROOT, "seeded", "C*_*"))):
     m = json.load(open(d + "/meta.json"))
     det = m.get("detected", {})
+    fin = m.get("detected_on_final_tree") or {}
+    if fin.get("obligations"):      # re-evaluated against the final /repo HEAD and the final checks (tools/seed_rerecord.py)
+        det = fin
     obs = det.get("obligations") or ["?"]
     proved = [o for o in obs if "/bounded/" not in o]
     ob = (proved or obs)[0]
@@ -15,7 +18,7 @@ for d in sorted(glob.glob(os.path.join(ROOT, "seeded", "C*_*"))):
     short = re.sub(r"\[.*", "", ob.split("/", 1)[1]) if "/" in ob else ob
     seeds.append((os.path.basename(d), m["breaks"].split(". ")[0][:150].replace("|", "/").replace("\n", " "), det.get("violations"), short[:110].replace("|", "/"), kind))
 tab = "\n".join(f"| {a} | {b} | {c} | `{d}` | {e} |" for a, b, c, d, e in seeds)
-head = "| seed | change (first sentence of meta.json) | violated | first detecting obligation | by |\n|------|--------------------------------------|----------|----------------------------|----|\n"
+head = "| seed | change (first sentence of meta.json) | violated | first detecting obligation (a proved one if any fired) | by |\n|------|--------------------------------------|----------|----------------------------|----|\n"
 i = s.index(head) + len(head)
 j = s.index("\n\n## 10.")
 s = s[:i] + tab + s[j:]
